@@ -1,1 +1,425 @@
-(* C18 placeholder, filled in below *)
+(* C18 - lemmas about the hand-off helpers of Model/Helpers.v (statements collected in Props/C18.v). *)
+From Coq Require Import QArith Qminmax Lqa Lia List Bool String.
+From Allfed Require Import Base.QList Model.Helpers.
+Import ListNotations.
+Open Scope Q_scope.
+
+
+Definition nonneg (l : list Q) : Prop := Forall (fun x => 0 <= x) l.
+
+Lemma nonneg_qsum l : nonneg l -> 0 <= qsum l.
+Proof. induction 1; simpl; lra. Qed.
+
+Lemma nonneg_nth l : nonneg l -> forall j, 0 <= nth j l 0.
+Proof. induction 1; intros [|j]; simpl; try lra; auto. Qed.
+
+(* ---------------- consume_all *)
+Lemma consume_length : forall fs rem, List.length (consume_all rem fs) = List.length fs.
+Proof. induction fs; intros; simpl; auto. Qed.
+
+Lemma consume_sum : forall fs rem, nonneg fs -> 0 <= rem ->
+  qsum (consume_all rem fs) == Qmin rem (qsum fs).
+Proof.
+  induction fs as [|f fs IH]; intros rem Hn Hr; simpl.
+  - destruct (Q.min_spec rem 0) as [[H E]|[H E]]; rewrite E; lra.
+  - inversion Hn as [|? ? Hf Hfs]; subst.
+    pose proof (nonneg_qsum fs Hfs) as Hs.
+    destruct (pymin_spec f rem) as [[H E]|[H E]]; rewrite E.
+    + rewrite IH by (auto; lra).
+      destruct (Q.min_spec (rem - f) (qsum fs)) as [[H1 E1]|[H1 E1]]; rewrite E1;
+      destruct (Q.min_spec rem (f + qsum fs)) as [[H2 E2]|[H2 E2]]; rewrite E2; lra.
+    + rewrite IH by (auto; lra).
+      destruct (Q.min_spec (rem - rem) (qsum fs)) as [[H1 E1]|[H1 E1]]; rewrite E1;
+      destruct (Q.min_spec rem (f + qsum fs)) as [[H2 E2]|[H2 E2]]; rewrite E2; lra.
+Qed.
+
+Lemma consume_bounds : forall fs rem, nonneg fs -> 0 <= rem ->
+  forall j, 0 <= nth j (consume_all rem fs) 0 /\ nth j (consume_all rem fs) 0 <= nth j fs 0
+            /\ nth j (consume_all rem fs) 0 <= rem.
+Proof.
+  induction fs as [|f fs IH]; intros rem Hn Hr j; simpl.
+  - destruct j; simpl; lra.
+  - inversion Hn as [|? ? Hf Hfs]; subst.
+    destruct (pymin_spec f rem) as [[H E]|[H E]]; rewrite E; destruct j; simpl; try lra.
+    + specialize (IH (rem - f) Hfs ltac:(lra) j). lra.
+    + specialize (IH (rem - rem) Hfs ltac:(lra) j). lra.
+Qed.
+
+(* once nothing remains, nothing more is taken *)
+Lemma consume_zero : forall fs rem, nonneg fs -> rem == 0 -> forall j, nth j (consume_all rem fs) 0 == 0.
+Proof.
+  induction fs as [|f fs IH]; intros rem Hn Hr j; simpl.
+  - destruct j; reflexivity.
+  - inversion Hn as [|? ? Hf Hfs]; subst.
+    destruct (pymin_spec f rem) as [[H E]|[H E]]; rewrite E; destruct j; simpl; try lra.
+    + apply IH; auto; lra.
+    + apply IH; auto; lra.
+Qed.
+
+Lemma consume_priority : forall fs rem, nonneg fs -> 0 <= rem ->
+  forall j, nth j (consume_all rem fs) 0 < nth j fs 0 ->
+  forall k, (j < k)%nat -> nth k (consume_all rem fs) 0 == 0.
+Proof.
+  induction fs as [|f fs IH]; intros rem Hn Hr j Hj k Hk.
+  - destruct j; simpl in Hj; lra.
+  - inversion Hn as [|? ? Hf Hfs]; subst. simpl in *.
+    destruct (pymin_spec f rem) as [[H E]|[H E]]; rewrite E in *.
+    + destruct j; simpl in Hj; [lra|]. destruct k; [lia|]. simpl.
+      apply (IH (rem - f) Hfs ltac:(lra) j Hj k). lia.
+    + destruct k; [lia|]. simpl. apply consume_zero; auto; lra.
+Qed.
+
+Lemma needs_cap_min K T pf : needs_cap K T pf == K * (Qmin pf T / 100).
+Proof.
+  unfold needs_cap. destruct (Qltb_spec T pf).
+  - rewrite Q.min_r by lra. reflexivity.
+  - rewrite Q.min_l by lra. reflexivity.
+Qed.
+
+
+(* ---------------- series level of the min-needs hand-off *)
+Definition r1_nonneg (r : r1_eaten) : Prop :=
+  nonneg (e_fish r) /\ nonneg (e_meat r) /\ nonneg (e_milk r) /\ nonneg (e_greenhouse r) /\
+  nonneg (e_immediate_oc r) /\ nonneg (e_new_stored_oc r) /\ nonneg (e_stored_food r) /\
+  nonneg (e_scp r) /\ nonneg (e_cell_sugar r) /\ nonneg (e_seaweed r).
+
+(* what round 1 ate of food j (position in the priority order) in month m *)
+Definition eaten (r : r1_eaten) (j m : nat) : Q := nth j (month_foods r m) 0.
+(* what the hand-off reserves of food j in month m *)
+Definition handoff (cap : Q) (r : r1_eaten) (N j m : nat) : Q := nth m (column (min_needs_rows cap r N) j) 0.
+
+Lemma month_foods_explicit r m : month_foods r m =
+  [nth m (e_fish r) 0; nth m (e_meat r) 0; nth m (e_milk r) 0; nth m (e_greenhouse r) 0;
+   nth m (e_immediate_oc r) 0 + nth m (e_new_stored_oc r) 0; nth m (e_stored_food r) 0;
+   nth m (e_scp r) 0; nth m (e_cell_sugar r) 0; nth m (e_seaweed r) 0].
+Proof. reflexivity. Qed.
+
+Lemma month_foods_nonneg r m : r1_nonneg r -> nonneg (month_foods r m).
+Proof.
+  intros (A & B & C & D & E & F & G & H & I & J). rewrite month_foods_explicit.
+  pose proof (nonneg_nth _ A m). pose proof (nonneg_nth _ B m). pose proof (nonneg_nth _ C m).
+  pose proof (nonneg_nth _ D m). pose proof (nonneg_nth _ E m). pose proof (nonneg_nth _ F m).
+  pose proof (nonneg_nth _ G m). pose proof (nonneg_nth _ H m). pose proof (nonneg_nth _ I m).
+  pose proof (nonneg_nth _ J m).
+  repeat constructor; lra.
+Qed.
+
+Lemma month_foods_length r m : List.length (month_foods r m) = 9%nat.
+Proof. reflexivity. Qed.
+
+Lemma handoff_eq cap r N j m : (m < N)%nat -> handoff cap r N j m = nth j (consume_all cap (month_foods r m)) 0.
+Proof.
+  intro H. unfold handoff, column, min_needs_rows. rewrite map_map.
+  rewrite nth_indep with (d' := nth j (consume_all cap (month_foods r 0)) 0)
+    by (rewrite map_length, seq_length; exact H).
+  rewrite (map_nth (fun x => nth j (consume_all cap (month_foods r x)) 0) (seq 0 N) 0%nat m).
+  now rewrite seq_nth.
+Qed.
+
+Lemma handoff_total cap r N m : (m < N)%nat -> r1_nonneg r -> 0 <= cap ->
+  qsum (tab 9 (fun j => handoff cap r N j m)) == Qmin cap (qsum (month_foods r m)).
+Proof.
+  intros Hm Hr Hc.
+  rewrite (qsum_tab_ext 9 _ (fun j => nth j (consume_all cap (month_foods r m)) 0))
+    by (intros j _; rewrite handoff_eq by exact Hm; reflexivity).
+  replace 9%nat with (List.length (consume_all cap (month_foods r m)))
+    by (rewrite consume_length; apply month_foods_length).
+  rewrite qsum_tab_nth. apply consume_sum; [apply month_foods_nonneg; exact Hr|exact Hc].
+Qed.
+
+Lemma min_needs_ok_inv K T pf Kc N r d : min_needs K T pf Kc N r = Ok d ->
+  d = combine (map fst order_table) (map (column (min_needs_rows (needs_cap K T pf) r N)) (seq 0 9)).
+Proof.
+  unfold min_needs. destruct (Nat.ltb (min_len r) N); [discriminate|].
+  match goal with |- (if ?c then _ else _) = _ -> _ => destruct c end; [|discriminate].
+  intro H. injection H as <-. reflexivity.
+Qed.
+
+
+(* ---------------- fill_negatives_with_positives *)
+Definition unchanged_or_shrunk (neg : nat) (a r : list Q) : Prop :=
+  forall j, j <> neg -> (nth j a 0 <= 0 -> nth j r 0 == nth j a 0) /\ (0 <= nth j a 0 -> 0 <= nth j r 0 <= nth j a 0).
+
+Ltac split6 := split; [|split; [|split; [|split; [|split]]]].
+
+Lemma fix_one_spec neg : forall idxs arr,
+  (neg < List.length arr)%nat -> (forall i, In i idxs -> (i < List.length arr)%nat) -> nth neg arr 0 <= 0 ->
+  let r := fix_one neg idxs arr in
+  List.length r = List.length arr /\ qsum r == qsum arr /\ nth neg r 0 <= 0 /\ nth neg arr 0 <= nth neg r 0 /\
+  unchanged_or_shrunk neg arr r /\
+  (nth neg r 0 == 0 \/ forall j, In j idxs -> j <> neg -> nth j r 0 <= 0).
+Proof.
+  induction idxs as [|i rest IH]; intros arr Hneg Hidx Hle; simpl.
+  - split6; try reflexivity; try lra.
+    + intros j _. split; intro; lra.
+    + right. intros j [].
+  - assert (Hrest : forall i0, In i0 rest -> (i0 < List.length arr)%nat) by (intros; apply Hidx; now right).
+    destruct (Nat.eqb i neg || Qle_bool (nth i arr 0) 0) eqn:Eskip.
+    + (* skipped *)
+      specialize (IH arr Hneg Hrest Hle). simpl in IH.
+      destruct IH as (L & S & N1 & N2 & U & D).
+      split6; auto.
+      destruct D as [D|D]; [now left|right].
+      intros j [<-|Hj] Hjn; [|now apply D].
+      apply orb_true_iff in Eskip. destruct Eskip as [E|E].
+      * apply Nat.eqb_eq in E. congruence.
+      * apply Qle_bool_iff in E. destruct (U i Hjn) as [U1 _]. rewrite (U1 E). exact E.
+    + apply orb_false_iff in Eskip. destruct Eskip as [E1 E2].
+      apply Nat.eqb_neq in E1.
+      assert (Hpos : 0 < nth i arr 0).
+      { destruct (Qle_bool_spec (nth i arr 0) 0); [discriminate|lra]. }
+      assert (Hi : (i < List.length arr)%nat) by (apply Hidx; now left).
+      set (adj := pymin (- nth neg arr 0) (nth i arr 0)).
+      set (arr1 := upd arr neg (nth neg arr 0 + adj)).
+      set (arr2 := upd arr1 i (nth i arr1 0 - adj)).
+      assert (Hadj : 0 <= adj /\ adj <= - nth neg arr 0 /\ adj <= nth i arr 0 /\
+                     (adj == - nth neg arr 0 \/ adj == nth i arr 0)).
+      { unfold adj. destruct (pymin_spec (- nth neg arr 0) (nth i arr 0)) as [[H ->]|[H ->]].
+        - split; [lra|split; [lra|split; [lra|left; reflexivity]]].
+        - split; [lra|split; [lra|split; [lra|right; reflexivity]]]. }
+      destruct Hadj as (A0 & A1 & A2 & A3).
+      assert (L1 : List.length arr1 = List.length arr) by (unfold arr1; apply upd_length).
+      assert (L2 : List.length arr2 = List.length arr) by (unfold arr2; rewrite upd_length; exact L1).
+      assert (Ni1 : nth i arr1 0 = nth i arr 0) by (unfold arr1; apply nth_upd_other; congruence).
+      assert (Nneg2 : nth neg arr2 0 = nth neg arr 0 + adj).
+      { unfold arr2. rewrite nth_upd_other by congruence. unfold arr1. apply nth_upd_same; exact Hneg. }
+      assert (Ni2 : nth i arr2 0 = nth i arr 0 - adj).
+      { unfold arr2. rewrite nth_upd_same by (rewrite L1; exact Hi). now rewrite Ni1. }
+      assert (No2 : forall j, j <> neg -> j <> i -> nth j arr2 0 = nth j arr 0).
+      { intros j J1 J2. unfold arr2. rewrite nth_upd_other by congruence. unfold arr1.
+        apply nth_upd_other; congruence. }
+      assert (S2 : qsum arr2 == qsum arr).
+      { unfold arr2. rewrite qsum_upd by (rewrite L1; exact Hi). rewrite Ni1.
+        unfold arr1. rewrite qsum_upd by exact Hneg. ring. }
+      assert (U2 : unchanged_or_shrunk neg arr arr2).
+      { intros j Jn. destruct (Nat.eq_dec j i) as [->|Ji].
+        - rewrite Ni2. split; intro; lra.
+        - rewrite (No2 j Jn Ji). split; intro; lra. }
+      fold adj. fold arr1. fold arr2.
+      destruct (Qeq_bool (nth neg arr2 0) 0) eqn:Ez.
+      * apply Qeq_bool_iff in Ez.
+        split6; auto; try (rewrite Nneg2; lra); try (left; exact Ez).
+      * assert (Hneq : ~ nth neg arr2 0 == 0) by (intro K; apply Qeq_bool_iff in K; congruence).
+        assert (Hfull : adj == nth i arr 0).
+        { destruct A3 as [A3|A3]; [|exact A3]. exfalso. apply Hneq. rewrite Nneg2, A3. ring. }
+        specialize (IH arr2). rewrite L2 in IH. specialize (IH Hneg Hrest ltac:(rewrite Nneg2; lra)).
+        simpl in IH. destruct IH as (L & S & N1 & N2 & U & D).
+        split6; auto.
+        -- rewrite S. exact S2.
+        -- rewrite Nneg2 in N2. lra.
+        -- intros j Jn. destruct (U j Jn) as [Ua Ub]. destruct (U2 j Jn) as [Va Vb]. split.
+           ++ intro Hj. rewrite Ua; [apply Va; exact Hj|]. rewrite (Va Hj). exact Hj.
+           ++ intro Hj. specialize (Vb Hj). specialize (Ub ltac:(lra)). lra.
+        -- destruct D as [D|D]; [now left|right].
+           intros j [<-|Hj] Hjn; [|now apply D].
+           destruct (U i Hjn) as [Ua _]. rewrite Ua; rewrite Ni2; lra.
+Qed.
+
+
+Lemma fix_one_full neg arr : (neg < List.length arr)%nat -> nth neg arr 0 <= 0 -> 0 <= qsum arr ->
+  nth neg (fix_one neg (down (List.length arr)) arr) 0 == 0.
+Proof.
+  intros Hn Hle Hs.
+  destruct (fix_one_spec neg (down (List.length arr)) arr Hn) as (L & S & N1 & N2 & U & D); auto.
+  { intros i Hi. unfold down in Hi. apply in_rev in Hi. apply in_seq in Hi. lia. }
+  destruct D as [D|D]; [exact D|].
+  set (r := fix_one neg (down (List.length arr)) arr) in *.
+  assert (Hall : forall m, (m < List.length r)%nat -> nth m r 0 <= 0).
+  { intros m Hm. destruct (Nat.eq_dec m neg) as [->|Hne]; [exact N1|].
+    apply D; [|exact Hne]. apply In_down. lia. }
+  pose proof (qsum_nonpos_le r Hall neg ltac:(lia)) as Hq.
+  apply Qle_antisym; [exact N1|]. rewrite S in Hq. lra.
+Qed.
+
+Definition fill_from (negs : list nat) (arr : list Q) : list Q :=
+  fold_left (fun a neg => fix_one neg (down (List.length a)) a) negs arr.
+
+Lemma fill_from_spec : forall negs arr,
+  (forall n, In n negs -> (n < List.length arr)%nat /\ nth n arr 0 <= 0) ->
+  let r := fill_from negs arr in
+  List.length r = List.length arr /\ qsum r == qsum arr /\
+  (forall j, 0 <= nth j arr 0 -> 0 <= nth j r 0 <= nth j arr 0) /\
+  (forall j, nth j arr 0 <= 0 -> nth j arr 0 <= nth j r 0 <= 0) /\
+  (0 <= qsum arr -> forall j, In j negs \/ 0 <= nth j arr 0 -> 0 <= nth j r 0).
+Proof.
+  induction negs as [|n rest IH]; intros arr Hpre; simpl.
+  - split; [reflexivity|]. split; [reflexivity|]. split; [intros; lra|]. split; [intros; lra|].
+    intros _ j [[]|H]; exact H.
+  - destruct (Hpre n (or_introl eq_refl)) as [Hn Hle].
+    destruct (fix_one_spec n (down (List.length arr)) arr Hn) as (L & S & N1 & N2 & U & _); auto.
+    { intros i Hi. unfold down in Hi. apply in_rev in Hi. apply in_seq in Hi. lia. }
+    set (arr' := fix_one n (down (List.length arr)) arr) in *.
+    assert (Hpre' : forall n0, In n0 rest -> (n0 < List.length arr')%nat /\ nth n0 arr' 0 <= 0).
+    { intros n0 Hin. destruct (Hpre n0 (or_intror Hin)) as [A B]. split; [lia|].
+      destruct (Nat.eq_dec n0 n) as [->|Hne]; [exact N1|].
+      destruct (U n0 Hne) as [Ua _]. rewrite (Ua B). exact B. }
+    specialize (IH arr' Hpre'). simpl in IH. destruct IH as (L' & S' & P' & M' & F').
+    assert (Hpos : forall j, 0 <= nth j arr 0 -> 0 <= nth j arr' 0 <= nth j arr 0).
+    { intros j Hj. destruct (Nat.eq_dec j n) as [->|Hne]; [lra|]. destruct (U j Hne) as [_ Ub]. auto. }
+    assert (Hneg : forall j, nth j arr 0 <= 0 -> nth j arr 0 <= nth j arr' 0 <= 0).
+    { intros j Hj. destruct (Nat.eq_dec j n) as [->|Hne]; [lra|]. destruct (U j Hne) as [Ua _].
+      rewrite (Ua Hj). lra. }
+    split; [lia|]. split; [rewrite S'; exact S|].
+    split. { intros j Hj. specialize (Hpos j Hj). specialize (P' j ltac:(lra)). lra. }
+    split. { intros j Hj. specialize (Hneg j Hj). specialize (M' j ltac:(lra)). lra. }
+    intros Hs j Hj. assert (Hs' : 0 <= qsum arr') by (rewrite S; exact Hs).
+    apply (F' Hs'). destruct Hj as [[<-|Hin]|Hj].
+    + right. pose proof (fix_one_full n arr Hn Hle Hs) as Z. fold arr' in Z. lra.
+    + now left.
+    + right. apply Hpos; exact Hj.
+Qed.
+
+Lemma neg_indices_spec arr n : In n (neg_indices arr) <-> ((n < List.length arr)%nat /\ nth n arr 0 < 0).
+Proof.
+  unfold neg_indices. rewrite filter_In, in_seq. split.
+  - intros [A B]. split; [lia|]. destruct (Qltb_spec (nth n arr 0) 0); [assumption|discriminate].
+  - intros [A B]. split; [lia|]. destruct (Qltb_spec (nth n arr 0) 0); [reflexivity|contradiction].
+Qed.
+
+Lemma fill_is_fill_from arr : fill arr = fill_from (neg_indices arr) arr.
+Proof. reflexivity. Qed.
+
+Lemma fill_spec arr :
+  List.length (fill arr) = List.length arr /\ qsum (fill arr) == qsum arr /\
+  (forall j, 0 <= nth j arr 0 -> 0 <= nth j (fill arr) 0 <= nth j arr 0) /\
+  (forall j, nth j arr 0 <= 0 -> nth j arr 0 <= nth j (fill arr) 0 <= 0) /\
+  (0 <= qsum arr -> forall j, 0 <= nth j (fill arr) 0).
+Proof.
+  rewrite fill_is_fill_from.
+  destruct (fill_from_spec (neg_indices arr) arr) as (L & S & P & M & F).
+  { intros n Hn. apply neg_indices_spec in Hn. split; [tauto|lra]. }
+  split; [exact L|]. split; [exact S|]. split; [exact P|]. split; [exact M|].
+  intros Hs j. apply (F Hs).
+  destruct (Qlt_le_dec (nth j arr 0) 0) as [Hlt|Hge]; [left|now right].
+  apply neg_indices_spec. split; [|exact Hlt].
+  destruct (Nat.lt_ge_cases j (List.length arr)) as [H|H]; [exact H|].
+  rewrite nth_overflow in Hlt by lia. lra.
+Qed.
+
+
+(* ---------------- meat re-timing *)
+Lemma forallb_nth (p : Q -> bool) l : (forall j, (j < List.length l)%nat -> p (nth j l 0) = true) -> forallb p l = true.
+Proof.
+  intro H. apply forallb_forall. intros x Hx. destruct (In_nth l x 0 Hx) as (j & Hj & <-). now apply H.
+Qed.
+
+Lemma qsum_tab_of_list l n : n = List.length l -> qsum (tab n (fun m => nth m l 0)) == qsum l.
+Proof. intros ->. apply qsum_tab_nth. Qed.
+
+Theorem redistribute_skip r1 r2 : qsum r2 < qsum r1 -> redistribute r1 r2 = Skip.
+Proof. intro H. unfold redistribute. destruct (Qltb_spec (qsum r2) (qsum r1)); [reflexivity|contradiction]. Qed.
+
+Theorem redistribute_ok r1 r2 :
+  List.length r1 = List.length r2 -> nonneg r1 -> qsum r1 <= qsum r2 ->
+  exists l, redistribute r1 r2 = Ok l /\ List.length l = List.length r2 /\ qsum l == qsum r2 /\
+            forall m, (m < List.length r2)%nat -> nth m r1 0 <= nth m l 0 /\ 0 <= nth m l 0.
+Proof.
+  intros Hlen Hnn Hsum. unfold redistribute.
+  destruct (Qltb_spec (qsum r2) (qsum r1)) as [C|_]; [lra|].
+  rewrite Hlen, Nat.eqb_refl. simpl negb. cbv iota.
+  set (n := List.length r2).
+  set (diff := tab n (fun m => nth m r2 0 - nth m r1 0)).
+  assert (Ld : List.length diff = n) by apply tab_length.
+  assert (Sd : qsum diff == qsum r2 - qsum r1).
+  { unfold diff. rewrite qsum_tab_minus. rewrite (qsum_tab_of_list r2 n eq_refl).
+    rewrite (qsum_tab_of_list r1 n) by (unfold n; congruence). reflexivity. }
+  destruct (fill_spec diff) as (Ls & Ss & _ & _ & Fs).
+  assert (Hs0 : 0 <= qsum diff) by (rewrite Sd; lra).
+  specialize (Fs Hs0).
+  set (spd := fill diff) in *.
+  assert (A1 : forallb (fun x => Qle_bool (- tol3) x) spd = true).
+  { apply forallb_nth. intros j _. apply Qle_bool_iff. specialize (Fs j). unfold tol3. lra. }
+  rewrite A1. simpl negb. cbv iota.
+  set (adj := tab n (fun m => nth m spd 0 - nth m diff 0)).
+  assert (Sa : qsum adj == 0).
+  { unfold adj. rewrite qsum_tab_minus. rewrite (qsum_tab_of_list spd n) by (rewrite Ls; congruence).
+    rewrite (qsum_tab_of_list diff n) by congruence. rewrite Ss. ring. }
+  assert (A2 : Qle_bool (qabs (qsum adj)) tol3 = true).
+  { apply Qle_bool_iff. unfold qabs. rewrite Sa. simpl. unfold tol3. lra. }
+  rewrite A2. simpl negb. cbv iota.
+  assert (Hadj : forall m, (m < n)%nat -> nth m adj 0 + nth m r2 0 == nth m r1 0 + nth m spd 0).
+  { intros m Hm. unfold adj. rewrite nth_tab by exact Hm. unfold diff. rewrite nth_tab by exact Hm. ring. }
+  assert (Hr1 : forall m, 0 <= nth m r1 0) by (apply nonneg_nth; exact Hnn).
+  assert (A3 : forallb (fun x => Qle_bool (- tol3) x) (tab n (fun m => nth m adj 0 + nth m r2 0)) = true).
+  { apply forallb_nth. intros j Hj. rewrite tab_length in Hj. rewrite nth_tab by exact Hj.
+    apply Qle_bool_iff. rewrite (Hadj j Hj). specialize (Fs j). specialize (Hr1 j). unfold tol3. lra. }
+  rewrite A3. simpl negb. cbv iota.
+  eexists. split; [reflexivity|]. split; [apply tab_length|]. split.
+  - rewrite qsum_tab_plus. rewrite (qsum_tab_of_list r2 n eq_refl).
+    rewrite (qsum_tab_of_list adj n) by (unfold adj; now rewrite tab_length). rewrite Sa. ring.
+  - intros m Hm. rewrite nth_tab by exact Hm.
+    assert (E : nth m r2 0 + nth m adj 0 == nth m r1 0 + nth m spd 0) by (rewrite <- (Hadj m Hm); ring).
+    rewrite E. specialize (Fs m). specialize (Hr1 m). lra.
+Qed.
+
+(* ---------------- increase_biofuels_then_feed (one month) *)
+Lemma bump1_never_lowers b f inc maxb maxf avail :
+  b <= fst (bump1 b f inc maxb maxf avail) /\ f <= snd (bump1 b f inc maxb maxf avail).
+Proof.
+  unfold bump1. cbv zeta. simpl fst; simpl snd.
+  split.
+  - match goal with |- _ <= _ + npmax 0 ?x => destruct (npmax_spec 0 x) as [[H ->]|[H ->]]; lra end.
+  - match goal with |- _ <= _ + npmax 0 ?x => destruct (npmax_spec 0 x) as [[H ->]|[H ->]]; lra end.
+Qed.
+
+Lemma bump1_feed_ceiling b f inc maxb maxf avail :
+  snd (bump1 b f inc maxb maxf avail) <= Qmax f maxf /\
+  snd (bump1 b f inc maxb maxf avail) <= Qmax f (f + inc).
+Proof.
+  unfold bump1. cbv zeta. simpl snd.
+  match goal with |- context [npmax 0 (npmin ?x ?y)] =>
+    destruct (npmin_spec x y) as [[H1 E1]|[H1 E1]]; rewrite E1; clear E1;
+    destruct (npmax_spec 0 x) as [[H2 E2]|[H2 E2]]; try rewrite E2;
+    destruct (npmax_spec 0 y) as [[H3 E3]|[H3 E3]]; try rewrite E3 end;
+  destruct (npmin_spec (f + inc) maxf) as [[H4 E4]|[H4 E4]]; rewrite E4 in *;
+  destruct (Q.max_spec f maxf) as [[M1 M2]|[M1 M2]]; rewrite M2;
+  destruct (Q.max_spec f (f + inc)) as [[M3 M4]|[M3 M4]]; rewrite M4; split; lra.
+Qed.
+
+Lemma bump1_biofuel_ceiling b f inc maxb maxf avail :
+  b <= maxb -> f <= maxf -> 0 <= inc ->
+  fst (bump1 b f inc maxb maxf avail) <= maxb /\ fst (bump1 b f inc maxb maxf avail) <= b + inc.
+Proof.
+  intros Hb Hf Hi. unfold bump1. cbv zeta. simpl fst.
+  set (pb := npmin (b + inc) maxb - b).
+  set (pf := npmin (f + inc) maxf - f).
+  assert (Pb : 0 <= pb /\ pb <= maxb - b /\ pb <= inc).
+  { unfold pb. destruct (npmin_spec (b + inc) maxb) as [[H ->]|[H ->]]; lra. }
+  assert (Pf : 0 <= pf).
+  { unfold pf. destruct (npmin_spec (f + inc) maxf) as [[H ->]|[H ->]]; lra. }
+  set (tp := pb + pf).
+  set (allowed := if Qle_bool (tp + b + f) avail then tp else avail - b - f).
+  assert (Al : allowed <= tp).
+  { unfold allowed. destruct (Qle_bool_spec (tp + b + f) avail); lra. }
+  set (d := tp + regulariser).
+  assert (Dp : 0 < d) by (unfold d, tp, regulariser; lra).
+  set (prop := pb / d).
+  assert (Pr : prop * d == pb) by (unfold prop; field; lra).
+  assert (Pr0 : 0 <= prop).
+  { unfold prop, Qdiv. apply Qmult_le_0_compat; [lra|]. apply Qlt_le_weak, Qinv_lt_0_compat, Dp. }
+  assert (Ab : allowed * prop <= pb).
+  { assert (allowed * prop <= d * prop).
+    { apply Qmult_le_compat_r; [unfold d, regulariser; lra|exact Pr0]. }
+    rewrite <- Pr. lra. }
+  destruct (npmax_spec 0 (allowed * prop)) as [[H ->]|[H ->]]; lra.
+Qed.
+
+(* the hypotheses are needed: feed already above its demand lets biofuel overshoot its own demand *)
+Lemma bump1_biofuel_ceiling_needs_domain :
+  exists b f inc maxb maxf avail, 0 <= b /\ b <= maxb /\ 0 <= f /\ 0 <= inc /\ 0 <= avail /\ maxf < f /\
+    maxb < fst (bump1 b f inc maxb maxf avail).
+Proof. exists 9, 5, 1, 10, 2, 0. vm_compute. repeat split; discriminate || reflexivity. Qed.
+
+(* the defect repaired by fix 5ea9ff8: without the np.minimum the regulariser leaks into feed *)
+Lemma bump1_before_fix_refuted :
+  exists b f inc maxb maxf avail, 0 <= b /\ b <= maxb /\ 0 <= f /\ f <= maxf /\ 0 <= inc /\
+    maxf < snd (bump1_before_fix b f inc maxb maxf avail).
+Proof. exists 0, 0, 10, 10, 10, 100. vm_compute. repeat split; discriminate || reflexivity. Qed.
+
+(* series level *)
+Lemma bump_nth b f inc maxb maxf avail m : (m < List.length b)%nat ->
+  nth m (fst (bump b f inc maxb maxf avail)) 0 =
+    fst (bump1 (nth m b 0) (nth m f 0) (nth m inc 0) (nth m maxb 0) (nth m maxf 0) (nth m avail 0)) /\
+  nth m (snd (bump b f inc maxb maxf avail)) 0 =
+    snd (bump1 (nth m b 0) (nth m f 0) (nth m inc 0) (nth m maxb 0) (nth m maxf 0) (nth m avail 0)).
+Proof. intro H. unfold bump. simpl fst; simpl snd. rewrite !nth_tab by exact H. split; reflexivity. Qed.
